@@ -31,6 +31,16 @@ func realNanos() int64 { // the bubble fakes time.Now; this is the machine's clo
 	return tv.Sec*1e9 + int64(tv.Usec)*1e3
 }
 
+// threadCPUNanos: CPU time of the calling OS thread (the guarded call runs locked to its thread), so
+// that a busy machine cannot make a cheap call look like a hang.
+func threadCPUNanos() int64 {
+	var ru syscall.Rusage
+	if err := syscall.Getrusage(1 /* RUSAGE_THREAD */, &ru); err != nil {
+		return realNanos()
+	}
+	return (ru.Utime.Sec+ru.Stime.Sec)*1e9 + (int64(ru.Utime.Usec)+int64(ru.Stime.Usec))*1e3
+}
+
 func allocBytes() uint64 {
 	s := []metrics.Sample{{Name: "/gc/heap/allocs:bytes"}}
 	metrics.Read(s)
@@ -94,9 +104,11 @@ func hexShort(b []byte) string {
 func (w *world) guarded(entry string, input []byte, extra string, f func()) (ok bool) {
 	w.calls++
 	callDesc.Store(entry + " " + extra + " " + hexShort(input))
-	t0, a0 := realNanos(), allocBytes()
-	callStart.Store(t0)
+	runtime.LockOSThread()
+	t0, a0 := threadCPUNanos(), allocBytes()
+	callStart.Store(realNanos())
 	defer func() {
+		defer runtime.UnlockOSThread()
 		callStart.Store(0)
 		if r := recover(); r != nil {
 			site := panicSite()
@@ -109,12 +121,12 @@ func (w *world) guarded(entry string, input []byte, extra string, f func()) (ok 
 			}
 			return
 		}
-		dt, da := realNanos()-t0, allocBytes()-a0
+		dt, da := threadCPUNanos()-t0, allocBytes()-a0
 		if w.prop != "C08" {
 			return
 		}
 		if dt > maxCallNanos {
-			w.d.Finding("no-hang", entry, "%s took %d ms real time; %s input(hex)=%s", entry, dt/1e6, extra, hexShort(input))
+			w.d.Finding("no-hang", entry, "%s took %d ms of CPU time; %s input(hex)=%s", entry, dt/1e6, extra, hexShort(input))
 		}
 		if da > allocBase+50*uint64(len(input)) {
 			w.d.Finding("bounded-alloc", entry, "%s allocated %d bytes for %d input bytes; %s input(hex)=%s", entry, da, len(input), extra, hexShort(input))
